@@ -29,10 +29,43 @@ type op struct {
 	Val  int `json:"val"`
 }
 
+// The first nBase keys and values form the alphabet of the exhaustive sweep; the rest (60 more keys, one of 300
+// bytes, values of 100 bytes to 4 KiB) are used by the random walks on large configurations only.
+const nBase = 5
+
 var (
 	keys = []string{"", "a", "b", "cc", "dd"}
 	vals = [][]byte{nil, {}, []byte("x"), []byte("yy"), []byte("zzzzz")}
 )
+
+func init() {
+	for i := 0; i < 60; i++ {
+		keys = append(keys, fmt.Sprintf("k%02d", i))
+	}
+	keys = append(keys, strings.Repeat("K", 300))
+	for _, n := range []int{100, 1000, 4096} {
+		vals = append(vals, bytes.Repeat([]byte{byte('A' + n%7)}, n))
+	}
+}
+
+func largeConfigs() []conf {
+	var out []conf
+	for _, lru := range []bool{true, false} {
+		for _, ms := range []uint{0, 3000, 65536} {
+			for _, mc := range []uint{0, 17, 50} {
+				for _, me := range []uint{0, 1200} {
+					for _, cb := range []int{cbNil, cbRecord, cbReenter} {
+						if !lru && cb == cbReenter {
+							continue
+						}
+						out = append(out, conf{ms, me, mc, lru, cb})
+					}
+				}
+			}
+		}
+	}
+	return out
+}
 
 func (o op) String() string {
 	switch o.Kind {
@@ -217,23 +250,31 @@ func (r *runner) onDelete(key, val []byte) {
 	rng := rand.New(rand.NewPCG(r.h.CBSeed, r.cbN))
 	r.depth++
 	n := 1 + rng.IntN(2)
+	// small configurations draw from the base alphabet, large ones from the whole universe
+	nk, nv := nBase, nBase
+	if r.h.Conf.MaxSize == 0 || r.h.Conf.MaxSize > 100 {
+		nk, nv = len(keys), len(vals)
+		if r.h.Conf.MaxSize == 0 && r.h.Conf.MaxCount < 10 && r.h.Conf.MaxElem < 200 {
+			nk, nv = nBase, nBase
+		}
+	}
 	for i := 0; i < n && r.fail == ""; i++ {
 		var o op
 		switch rng.IntN(8) {
 		case 0:
 			o = op{Kind: opGet, Key: keyIndex(string(key))} // the entry being evicted must be gone
 		case 1:
-			o = op{Kind: opSet, Key: keyIndex(string(key)), Val: rng.IntN(len(vals))} // put it back
+			o = op{Kind: opSet, Key: keyIndex(string(key)), Val: rng.IntN(nv)} // put it back
 		case 2:
-			o = op{Kind: opSet, Key: rng.IntN(len(keys)), Val: rng.IntN(len(vals))}
+			o = op{Kind: opSet, Key: rng.IntN(nk), Val: rng.IntN(nv)}
 		case 3:
-			o = op{Kind: opDel, Key: rng.IntN(len(keys))}
+			o = op{Kind: opDel, Key: rng.IntN(nk)}
 		case 4:
 			o = op{Kind: opClear}
 		case 5:
 			o = op{Kind: opStats}
 		default:
-			o = op{Kind: opGet, Key: rng.IntN(len(keys))}
+			o = op{Kind: opGet, Key: rng.IntN(nk)}
 		}
 		r.reent++
 		r.apply(o)
@@ -345,8 +386,8 @@ func configs() []conf {
 
 func opAlphabet() []op {
 	var out []op
-	for k := range keys {
-		for v := range vals {
+	for k := range keys[:nBase] {
+		for v := range vals[:nBase] {
 			out = append(out, op{opSet, k, v})
 		}
 		out = append(out, op{opGet, k, 0}, op{opDel, k, 0})
@@ -471,7 +512,7 @@ func TestModel(t *testing.T) {
 			for j := 0; j < wl; j++ {
 				o := al[rng.IntN(len(al))]
 				if rng.IntN(3) == 0 {
-					o = op{opSet, rng.IntN(len(keys)), 1 + rng.IntN(len(vals)-1)} // bias to insertions
+					o = op{opSet, rng.IntN(nBase), 1 + rng.IntN(nBase-1)} // bias to insertions
 				}
 				h.Ops = append(h.Ops, o)
 			}
@@ -488,6 +529,52 @@ func TestModel(t *testing.T) {
 		r.Eval(e)
 		r.NontrivialN(int64(walks))
 		r.Count("histories", int64(walks))
+		r.Count("evictions_observed", ev)
+		r.Count("reentrant_calls", re)
+	})
+	// (3) large configurations: dozens of live entries, values of kilobytes, long usage lists
+	lcfgs := largeConfigs()
+	lwalks := r.Pick(6, 200)
+	mon.ParallelEach(len(lcfgs), func(w, ci int) {
+		var e, ev, re int64
+		rng := r.Rand(uint64(19000 + ci))
+		for k := 0; k < lwalks; k++ {
+			h := history{Conf: lcfgs[ci], CBSeed: rng.Uint64()}
+			for j := 0; j < 300; j++ {
+				var o op
+				switch x := rng.IntN(20); {
+				case x < 11:
+					o = op{opSet, rng.IntN(len(keys)), rng.IntN(len(vals))}
+				case x < 16:
+					o = op{opGet, rng.IntN(len(keys)), 0}
+				case x < 18:
+					o = op{opDel, rng.IntN(len(keys)), 0}
+				case x == 18:
+					o = op{Kind: opStats}
+				default:
+					if rng.IntN(6) == 0 {
+						o = op{Kind: opClear}
+					} else {
+						o = op{opGet, rng.IntN(len(keys)), 0}
+					}
+				}
+				h.Ops = append(h.Ops, o)
+			}
+			rr := runW(w, h)
+			e += rr.evals
+			ev += rr.evicts
+			re += rr.reent
+			if rr.fail != "" {
+				h.Ops = h.Ops[:countTop(rr.log)]
+				if len(rr.log) > 40 {
+					rr.log = append([]string{fmt.Sprintf("... %d earlier log lines", len(rr.log)-40)}, rr.log[len(rr.log)-40:]...)
+				}
+				report(r, h, rr)
+			}
+		}
+		r.Eval(e)
+		r.NontrivialN(int64(lwalks))
+		r.Count("large_histories", int64(lwalks))
 		r.Count("evictions_observed", ev)
 		r.Count("reentrant_calls", re)
 	})
